@@ -4,8 +4,8 @@
    really computes on it: two contributions from two "trainers" to a two-element parameter under full
    multiplicative dependence with limits [0, 1] and reduction mean, then module.update(). *)
 From Coq Require Import List ZArith Bool Arith Reals Lra Lia Permutation.
-From Inferno Require Import Base.Num Base.NumR Gen.Bounding C10.Updater C10.KernelProofs C10.AccProofs C10.OrderProofs
-  C10.WorldProofs C10.UpdateProofs C10.InterleaveProofs.
+From Inferno Require Import Base.Num Base.NumR Gen.Bounding C10.Updater C10.KernelAlgebra C10.KernelRange C10.AccProofs
+  C10.OrderProofs C10.WorldProofs C10.RangeProofs C10.UpdateProofs C10.InterleaveProofs.
 Import ListNotations.
 Open Scope R_scope.
 
